@@ -33,6 +33,8 @@ type KnownFile struct {
 	Fixed    []string       `json:"fixed"`
 }
 
+var evidenceExtra = map[string]interface{}{}
+
 func hasProp(ps []string, p string) bool {
 	for _, x := range ps {
 		if x == p {
@@ -244,13 +246,18 @@ func finish(ld *Loaded, db *SpecDB, reports []*FuncReport, groups map[string]*ob
 	var lines []string
 	present := map[string]bool{}
 	quantified := 0
+	var deadReturns []string
 	for _, n := range names {
 		g := groups[n]
 		if g.Kind == "cover" {
 			// vacuity guard: a cover that is unsat means an unreachable return / contradictory requires
 			if g.Status == "failed" {
-				lines = append(lines, fmt.Sprintf("ENGINE: vacuity: %s is unreachable", n))
-				engineErrs = append(engineErrs, "vacuous: "+n)
+				if strings.HasSuffix(n, "#requires-sat") {
+					lines = append(lines, fmt.Sprintf("ENGINE: vacuity: the precondition of %s is unsatisfiable", n))
+					engineErrs = append(engineErrs, "vacuous: "+n)
+				} else {
+					deadReturns = append(deadReturns, n)
+				}
 			}
 			continue
 		}
@@ -327,6 +334,7 @@ func finish(ld *Loaded, db *SpecDB, reports []*FuncReport, groups map[string]*ob
 	if *flagWriteBaseline {
 		writeBaseline(prop, groups, names)
 	}
+	evidenceExtra["unreachable_returns"] = deadReturns
 	writeEvidence(ld, db, reports, prop, total, discharged, violations, undecided, knownHit, quantified, samples, byBackend, solverTime, engineErrs, t0)
 	if total == 0 {
 		fmt.Println("ENGINE: zero obligations generated for", prop)
@@ -411,7 +419,13 @@ func writeEvidence(ld *Loaded, db *SpecDB, reports []*FuncReport, prop string, t
 	unknownExt := map[string]bool{}
 	inlined := map[string]bool{}
 	var noDec []string
+	var skipped []string
 	for _, r := range reports {
+		if r.Skipped != "" {
+			skipped = append(skipped, r.Key+": "+r.Skipped)
+			assume["not verified: "+r.Key+" ("+r.Skipped+")"] = true
+			continue
+		}
 		if r.Trusted {
 			trustedFns = append(trustedFns, r.Key)
 			assume["trusted contract (body not checked): "+r.Key] = true
@@ -450,6 +464,7 @@ func writeEvidence(ld *Loaded, db *SpecDB, reports []*FuncReport, prop string, t
 	for u := range unknownExt {
 		assume["unspecified external callee (all modelled state havocked at the call): "+u] = true
 	}
+	evidenceExtra["skipped"] = skipped
 	level := "proof"
 	if discharged < total || total == 0 {
 		level = "other"
@@ -472,6 +487,8 @@ func writeEvidence(ld *Loaded, db *SpecDB, reports []*FuncReport, prop string, t
 		"engine_errors":            engineErrs,
 		"samples":                  samples,
 		"contract_files":           db.Files,
+		"unreachable_returns":     evidenceExtra["unreachable_returns"],
+		"skipped_functions":       evidenceExtra["skipped"],
 		"explanation":              fmt.Sprintf("contract-based deductive verification: %d named obligations generated by weakest-precondition style symbolic execution over go/ssa for the functions carrying %s clauses, discharged by an SMT portfolio; %d discharged, %d undecided, %d match recorded known findings, %d violations", total, prop, discharged, undecided, knownHit, violations),
 	}
 	ev := map[string]interface{}{
